@@ -5,6 +5,7 @@ minimal, heap invariant of the PosPQ operations, draining a heap gives a sorted 
 -/
 import Asynkit.Lemmas.Heap
 import Asynkit.Model.PosPQ
+import Asynkit.Props.C19
 
 namespace Asynkit
 
@@ -92,9 +93,6 @@ theorem isHeap_head_min {α : Type} {lt : α → α → Bool} (h : SWO lt) (a : 
   intro e he
   obtain ⟨i, hi, rfl⟩ := List.getElem_of_mem he
   exact isHeap_root_min h (a :: l) hl i hi
-
-theorem isHeap_nil {α : Type} (lt : α → α → Bool) : IsHeap lt ([] : List α) := by
-  intro i _ h; simp at h
 
 theorem isHeap_dropLast {α : Type} {lt : α → α → Bool} (l : List α) (h : IsHeap lt l) :
     IsHeap lt l.dropLast := by
@@ -354,31 +352,22 @@ theorem regularMinMax_equal (c : Rat) (l : List (Entry PV)) (h : EqualPri c l) :
       · simp [h3, hp]
       · simp only [h3, hp]; congr <;> grind
 
-theorem boostWalk_equal (factor c : Rat) (limit : Nat) (draw : Nat → Rat) (k : Nat) (l : List (Entry PV))
-    (h : EqualPri c l) : boostWalk factor c limit draw k l = (l, false) := by
-  induction l generalizing k with
-  | nil => rfl
-  | cons e es ih =>
-    have hes : EqualPri c es := fun x hx => h x (List.mem_cons_of_mem _ hx)
-    unfold boostWalk
-    have hcond : (e.pri.cls != 0 && decide (e.pri.insertedAt < limit) && decide (e.pri.base > c)) = false := by
-      by_cases hc : e.pri.cls = 0
-      · simp [hc]
-      · have := (h e (by simp) hc).1
-        simp [this]
-    simp only [hcond, Bool.false_eq_true, if_false, ih k hes]
-
 /-- with all regular priorities equal, queue maintenance (whatever the boost factor and the
-    random draws) leaves the queue untouched -/
+    random draws) leaves the queue untouched (the lead's `C19.maintenance_noop_equal`) -/
 theorem doMaintenance_equal (c : Rat) (s : PosPQ) (draw : Nat → Rat) (h : EqualPri c s.q.pq) :
-    doMaintenance H s draw = s := by
-  unfold doMaintenance
-  split
-  · rfl
-  · rcases regularMinMax_equal c s.q.pq h with h1 | h1
-    · simp [h1]
-    · simp only [h1, boostWalk_equal _ c _ draw 0 s.q.pq h]
-      simp
+    doMaintenance H s draw = s :=
+  C19.maintenance_noop_equal s draw c h
+
+/-- … hence `update_counters` never touches the heap of such a queue -/
+theorem updateCounters_q_equal (c : Rat) (s : PosPQ) (b : Bool) (draw : Nat → Rat)
+    (h : EqualPri c s.q.pq) : (updateCounters H s b draw).q = s.q := by
+  unfold updateCounters
+  cases b
+  · simp only [Bool.false_eq_true, if_false]; split <;> rfl
+  · simp only [if_true]
+    split
+    · rw [doMaintenance_equal c _ draw (by exact h)]
+    · rfl
 
 end PosPQ
 end Asynkit
